@@ -293,6 +293,7 @@ def run(ctx) -> None:
             return any((isinstance(x, ast.Name) and x.id in link_sets) or
                        (isinstance(x, ast.Call) and isinstance(x.func, ast.Name) and x.func.id in helpers) for x in ast.walk(test))
         name_ok = link_ok = False
+        link_tests_seen: List[ast.AST] = []
         for lp in loops:
             mvar = lp.target.id if isinstance(lp.target, ast.Name) else None
             for iff in [x for x in ast.walk(lp) if isinstance(x, ast.If) and any(live_node(cfg, a) for a in ast.walk(x.test) if isinstance(a, (ast.Call, ast.Compare, ast.Name)))]:
@@ -301,6 +302,7 @@ def run(ctx) -> None:
                 about_link = mentions_source(sr, iff.test, lambda n_: isinstance(n_, ast.Attribute) and n_.attr in ("linkname", "linkpath"))
                 if about_link:
                     link_ok = True
+                    link_tests_seen.append(iff.test)
                 elif mentions_source(sr, iff.test, lambda n_: isinstance(n_, ast.Attribute) and n_.attr in ("name", "path")
                                      and isinstance(n_.value, ast.Name) and n_.value.id == mvar):
                     name_ok = True
@@ -314,6 +316,39 @@ def run(ctx) -> None:
                    "member names are not tested against the archive's own links" if not name_ok else
                    "link targets are not tested against the archive's own links"),
                construct=short(call, 40) + " <- archive's own links")
+        if ok:
+            # a link target may be ABSOLUTE and spell the destination itself ('<dest>/b/../victim' with 'b -> .' in the archive): a test that
+            # compares lexical relative prefixes with the (relative) names of the archive's links never matches it.  The path that is looked up
+            # among the archive's links is therefore expressed relative to the destination (it depends on the extraction root), or absolute
+            # link targets are refused outright
+            dest_names = {x.id for a_ in call.args[:1] for x in ast.walk(a_) if isinstance(x, ast.Name)}
+
+            def is_dest(n_: ast.AST) -> bool:
+                return isinstance(n_, ast.Name) and n_.id in dest_names
+
+            def anchored(e_: ast.AST, fn_: ast.AST) -> bool:
+                return mentions_source(fn_, e_, lambda n_: is_dest(n_) or (isinstance(n_, ast.Name) and any(
+                    mentions_source(sr, d_, is_dest) for d_ in local_defs(sr, n_.id))))
+            helper_defs = {f.name: f for f in source.walk_own(sr) if isinstance(f, ast.FunctionDef) and f.name in helpers}
+            abs_refused = any(isinstance(x, ast.If) and any(isinstance(r_, ast.Raise) for st_ in x.body for r_ in ast.walk(st_)) and any(
+                isinstance(c, ast.Call) and call_name(c) == "os.path.isabs" and mentions_source(sr, c, lambda n_: isinstance(n_, ast.Attribute) and n_.attr in ("linkname", "linkpath"))
+                for c in ast.walk(x.test)) for lp in loops for x in ast.walk(lp))
+            for t_ in link_tests_seen:
+                good = abs_refused or anchored(t_, sr)
+                if not good:
+                    for c in [x for x in ast.walk(t_) if isinstance(x, ast.Call) and isinstance(x.func, ast.Name) and x.func.id in helper_defs]:
+                        hf = helper_defs[c.func.id]
+                        cmps = [x for x in ast.walk(hf) if isinstance(x, ast.Compare) and any(isinstance(o, (ast.In, ast.NotIn)) for o in x.ops)
+                                and any(isinstance(y, ast.Name) and y.id in link_sets for cmp_ in x.comparators for y in ast.walk(cmp_))]
+                        if cmps and all(anchored(x.left, hf) for x in cmps):
+                            good = True
+                ctx.ob("C18.R5-archive-own-links", t_, good,
+                       "the path looked up among the archive's own links is expressed relative to the destination (an absolute link target that spells "
+                       "the destination is covered)" if good else
+                       "link targets are compared with the archive's own links as lexical RELATIVE prefixes only: an absolute target that spells the "
+                       "destination - 'b -> .', 'e -> <workdir>/b/../victim.txt', then a regular member 'e' - never matches, realpath() collapses 'b/..' "
+                       "(b is not on disk yet) and the member is written through the link into the parent of the working directory",
+                       construct="link targets looked up among the archive's links relative to the destination")
 
     # ---------------- R7: what the linkname is joined to ---------------------------------------------
     def kind_of_test(t: ast.AST) -> Optional[str]:
